@@ -90,4 +90,74 @@ def check_compact(prop, tier, seed):
         work.cleanup()
 
 
-REGISTRY = {"C07": check_compact}
+MC_INV["C17"] = ["OnlyEventsExpire", "NonEventsKeepHistory", "IndexAgrees", "ExpiredAbsent", "FloorMonotone"]
+T_MON["C17"] = ["M_NotBeforeTTL", "M_ExpireWholly", "M_CompactionPreservesReads", "M_CompactionDeletesLiveIndex", "M_ReadIsSnapshot", "M_WriteCondition",
+                "M_SuccessMeansWritten", "M_DeliveredMatchesWrite", "M_NoSkip", "M_FailedOnlyIfDiffered", "M_Writable", "M_ExpiryExpectation"]
+TTL_CONSTS = dict(SEQ_CONSTS, Keys={1, 2, 3}, EventKeys={2}, Expiry=True, MaxOps=5, ExpKinds={"zero", "cur"}, CompactKinds={"zero", "cur-1"})
+
+
+def check_ttl(prop, tier, seed):
+    t0 = time.time()
+    work = Work(prop)
+    violations = 0
+    quick = tier == "quick"
+    try:
+        binp = build_harness(work)
+        cov = dict(states=0, transitions=0, traces_validated_against_impl=0, samples=[], evaluations=0,
+                   distinct_nontrivial=0, mc_runs=[], replay=[], exhaustive=False)
+        mcs = [("3 keys (1 Event record), 5 requests, compaction marks that age or not", dict(TTL_CONSTS, MaxOps=5 if quick else 6))]
+        if not quick:
+            mcs.append(("4 keys (2 Event records)", dict(TTL_CONSTS, Keys={1, 2, 3, 4}, EventKeys={2, 3}, MaxOps=5)))
+        for title, consts in mcs:
+            r = seq_mc(work, consts, MC_INV[prop])
+            cov["states"] += r["distinct"]; cov["transitions"] += r["states"]
+            cov["mc_runs"].append(dict(module="KBSeq.tla (Expiry)", config=title, distinct_states=r["distinct"], states_generated=r["states"], invariants=MC_INV[prop]))
+            log("MC KBSeq expiry %s: %d distinct states" % (title, r["distinct"]))
+        # engines without native TTL: expiry inside compaction, real time with a 1 s TTL
+        n = 64 if quick else 640
+        behs = seq_gen(work, dict(TTL_CONSTS, Keys={1, 2, 3, 4}, EventKeys={2, 3}, MaxOps=6, CompactAfter=2), seed, n, name="genttl")
+        aged = sum(1 for b in behs for o in json.loads(b)["ops"] if o["op"] == "compact" and o["aged"] > 0)
+        flags = ["-seed", str(seed), "-frac", "0.0", "-finalfrac", "0.1" if quick else "0.5", "-streams=false", "-ttl", "1", "-keyset", "events"]
+        rep, traces, _ = seqrun(work, binp, behs, "tikv", 16, flags)
+        cov["evaluations"] += rep.get("behaviours", 0)
+        cov["distinct_nontrivial"] += rep.get("nontrivial", 0)
+        cov["replay"].append(dict(what="TiKV mock (no native TTL): Event records, a pod in a namespace called events and a plain key; compactions whose marks age beyond a 1 s TTL (real sleeps)",
+                                  histories=rep.get("behaviours", 0), compactions_with_aged_marks=aged, agreed_with_spec=rep.get("agreed", 0),
+                                  mismatch_or_inconclusive=rep.get("obs_mismatch", 0), notes=(rep.get("mismatch_notes") or [])[:2]))
+        if rep.get("samples"):
+            cov["samples"].append(json.loads(rep["samples"][0]))
+        log("expiry histories on TiKV mock: %d histories, %d compactions with aged marks, responses matched in %d" % (rep.get("behaviours", 0), aged, rep.get("agreed", 0)))
+        # engines with native TTL: scripted scenario with explicit expectations
+        d = work.sub("ttlrun")
+        procs = []
+        for eng in ("memkv", "badger", "metrics"):
+            for i in range(2 if quick else 6):
+                tr = os.path.join(d, "ttl_%s_%d.ndjson" % (eng, i)); rp = os.path.join(d, "ttl_%s_%d.json" % (eng, i))
+                procs.append((subprocess.Popen(["timeout", "60", binp, "ttlrun", "-engine", eng, "-out", tr, "-report", rp], stdout=subprocess.PIPE, stderr=subprocess.STDOUT, env=GOENV, text=True), eng, tr, rp))
+        for p, eng, tr, rp in procs:
+            out, _ = p.communicate()
+            if p.returncode != 0 or not os.path.exists(rp):
+                log("ttlrun on %s inconclusive (rc=%s): %s" % (eng, p.returncode, (out or "")[-200:]))
+                continue
+            traces.append(tr)
+            cov["replay"].append(json.load(open(rp)))
+            cov["evaluations"] += 1
+        ntr, v = validate_all(work, traces, T_MON[prop], chunks=8)
+        cov["traces_validated_against_impl"] = ntr
+        if v:
+            violations += 1
+            report_violation(prop, seed, v)
+        cov["rule"] = ("(a) histories of KBSeq.tla with Event records and look-alike keys in which the marks of earlier compactions age beyond the TTL or not, "
+                       "run on the TiKV mock with a 1 s TTL and real sleeps (a history whose measured timing leaves the model's assumption is discarded); "
+                       "(b) a scripted scenario with explicit expectations on engines with native TTL (memkv, Badger, metrics wrapper), TTL 2 s")
+        cov["monitors"] = T_MON[prop]
+        write_evidence(prop, tier, seed, cov,
+                       ["real clocks: TTLs of 1-2 s against steps of milliseconds; Badger keeps expiry in whole seconds, so 'younger than the TTL' is checked with 1 s slack",
+                        "on engines with native TTL the removal itself is not observable at the storage interface; only its effects are checked"],
+                       time.time() - t0, violations)
+        return 1 if violations else 0
+    finally:
+        work.cleanup()
+
+
+REGISTRY = {"C07": check_compact, "C17": check_ttl}
